@@ -40,52 +40,108 @@ def to_int(x):
     return int(r)
 
 
-def build_op(k, v, pos):
-    w = pos % 2
-    p = [val(x) for x in v]
-    if k in ("CNOT",):
+# An operator is a tree {"k": kind, "v": own parameters, "sub": operands} (TapeParams.tla: Op).  The driver builds real operators
+# from trees and reads trees back through the public attributes (coeffs / ops, scalar / base, operands, data of the leaves).
+LEAF_OBS = {"Z": qp.Z, "X": qp.X, "Y": qp.Y}
+KIND_OF = {"PauliZ": "Z", "PauliX": "X", "PauliY": "Y", "LinearCombination": "Ham", "Hamiltonian": "Ham", "Sum": "Sum", "Prod": "Prod",
+           "SProd": "SProd", "Adjoint": "Adjoint", "Adjoint2": "Adjoint", "AdjointOperation": "Adjoint", "AdjointObs": "Adjoint"}
+
+
+def build_node(n, conv, ctr):
+    """conv is called once per parameter, in the order in which the parameters appear in the operator (coefficient before its term)."""
+    k, v, sub = n["k"], n["v"], n["sub"]
+    if k == "Ham":
+        cs, ts = [], []
+        for c, t in zip(v, sub):
+            cs.append(conv(c))
+            ts.append(build_node(t, conv, ctr))
+        return qp.Hamiltonian(cs, ts)
+    p = [conv(x) for x in v]
+    if k == "SProd":
+        return qp.s_prod(p[0], build_node(sub[0], conv, ctr))
+    if k in ("Sum", "Prod"):
+        return (qp.sum if k == "Sum" else qp.prod)(*[build_node(t, conv, ctr) for t in sub])
+    if k == "Adjoint":
+        return qp.adjoint(build_node(sub[0], conv, ctr))
+    if sub:
+        raise lib.MachineryError(f"kind {k} cannot have operands")
+    w = ctr[0] % 2
+    ctr[0] += 1
+    if k == "CNOT":
         return qp.CNOT([0, 1])
     if k == "IsingXX":
         return qp.IsingXX(p[0], [0, 1])
+    if k in LEAF_OBS:
+        return LEAF_OBS[k](w)
     return getattr(qp, k)(*p, wires=w)
 
 
-def build_meas(k, v):
-    p = [val(x) for x in v]
-    if k == "probs":
+def build_op(o, pos, conv=None):
+    return build_node(o, conv or val, [pos])
+
+
+def build_meas(m, conv=None):
+    if m["k"] == "probs":
         return qp.probs(wires=[0])
-    if k == "Z":
-        return qp.expval(qp.Z(0))
+    return qp.expval(build_node(m, conv or val, [0]))
+
+
+def node_of(op):
+    """The tree of a real operator, read through its public attributes."""
+    k = KIND_OF.get(type(op).__name__, op.name)
+    if k == "Ham":
+        return {"k": k, "v": [to_int(c) for c in op.coeffs], "sub": [node_of(t) for t in op.ops]}
     if k == "SProd":
-        return qp.expval(qp.s_prod(p[0], qp.Z(1)))
-    if k == "Sum2":
-        return qp.expval(qp.sum(qp.s_prod(p[0], qp.Z(0)), qp.s_prod(p[1], qp.X(1))))
-    raise lib.MachineryError(f"unknown measurement kind {k}")
+        return {"k": k, "v": [to_int(op.scalar)], "sub": [node_of(op.base)]}
+    if k in ("Sum", "Prod"):
+        return {"k": k, "v": [], "sub": [node_of(t) for t in op.operands]}
+    if k == "Adjoint":
+        return {"k": k, "v": [], "sub": [node_of(op.base)]}
+    return {"k": k, "v": [to_int(d) for d in op.data], "sub": []}
 
 
-def meas_kind(m):
-    if m.obs is None:
-        return "probs"
-    n = type(m.obs).__name__
-    return {"PauliZ": "Z", "SProd": "SProd", "Sum": "Sum2"}.get(n, n)
+def paths(n):
+    """Python twin of TapeParams!Paths, used only to fabricate negative controls and to count layouts."""
+    out = [] if n["k"] == "Ham" else [[0, j] for j in range(len(n["v"]))]
+    for i, t in enumerate(n["sub"]):
+        if n["k"] == "Ham":
+            out.append([0, i])
+        out += [[i + 1] + q for q in paths(t)]
+    return out
+
+
+def node_put(n, path, f):
+    while path[0] != 0:
+        n, path = n["sub"][path[0] - 1], path[1:]
+    n["v"][path[1]] = f(n["v"][path[1]])
+
+
+def deep_layout(n):
+    """An operand with several parameters is followed by further parameters of the same operator (TapeParams!DeepLayout)."""
+    ln = [len(paths(t)) for t in n["sub"]]
+    return any(ln[i] >= 2 and (n["k"] == "Ham" or ln[j] >= 1) for i in range(len(ln)) for j in range(i + 1, len(ln))) or any(deep_layout(t) for t in n["sub"])
 
 
 def seq(x):
     return list(x) if x else []
 
 
+def norm_node(o):
+    return {"k": o["k"], "v": seq(o["v"]), "sub": [norm_node(t) for t in seq(o.get("sub"))]}
+
+
 def norm_exp(e):
     """TLC's JSON: empty sequences may come out as {} -> normalise."""
-    return {"ops": [{"k": o["k"], "v": seq(o["v"])} for o in seq(e["ops"])],
-            "meas": [{"k": o["k"], "v": seq(o["v"])} for o in seq(e["meas"])],
+    return {"ops": [norm_node(o) for o in seq(e["ops"])],
+            "meas": [norm_node(o) for o in seq(e["meas"])],
             "tr": seq(e["tr"]), "shots": e["shots"], "pi": [list(a) for a in seq(e["pi"])], "all": seq(e["all"]),
             "tp": seq(e["tp"]), "otp": seq(e["otp"])}
 
 
 def project(t):
     """What the implementation reports about one tape (public API only)."""
-    p = {"ops": [{"k": op.name, "v": [to_int(d) for d in op.data]} for op in t.operations],
-         "meas": [{"k": meas_kind(m), "v": [to_int(d) for d in (m.obs.data if m.obs is not None else ())]} for m in t.measurements],
+    p = {"ops": [node_of(op) for op in t.operations],
+         "meas": [node_of(m.obs) if m.obs is not None else {"k": "probs", "v": [], "sub": []} for m in t.measurements],
          "tr": [int(i) for i in t.trainable_params], "shots": int(t.shots.total_shots or 0), "err": "", "np": int(t.num_params)}
     info = t.par_info
     p["pi"] = [[int(d["op_idx"]), int(d["p_idx"])] for d in info]
@@ -117,28 +173,39 @@ def differs(p, e):
 GATESET = {"RX", "RY", "RZ", "CNOT", "PhaseShift"}
 
 
+def new_stats():
+    return {"acts": {}, "expand": 0, "expand_nontrivial": 0, "expand_explicit_indices_recomputed": 0, "drift": 0,
+            "binds_on_nested": 0, "binds_into_deep_layout": 0, "copies_of_nested": 0, "expands_with_nested": 0}
+
+
+def note_nested(stats, a, proj, arg):
+    """Vacuity counters: calls on tapes whose operators nest, and binds that address a parameter of an operator in which an operand
+    with several parameters is followed by further parameters."""
+    circ = proj["ops"] + proj["meas"]
+    if not any(n["sub"] for n in circ):
+        return
+    if a.startswith("bind"):
+        stats["binds_on_nested"] += 1
+        stats["binds_into_deep_layout"] += any(deep_layout(circ[proj["pi"][i][0]]) for i in arg if 0 <= i < len(proj["pi"]))
+    elif a.startswith("copy"):
+        stats["copies_of_nested"] += 1
+    elif a == "expand":
+        stats["expands_with_nested"] += 1
+
+
 def do_expand(t, stats):
     """Expansion as the workflow sees it: parameters carry requires_grad flags matching the trainable indices (the tape is rebuilt
     from its reported content with flagged tensors, independently of bind_new_parameters), qp.transforms.decompose runs, and the
     trainable indices of the result are read back from the flags."""
     p = project(t)
     trs, k = set(p["tr"]), 0
-    ops, meas = [], []
 
-    def flag(vs):
+    def flag(v):
         nonlocal k
-        out = []
-        for v in vs:
-            out.append(pnp.tensor(val(v), requires_grad=(k in trs)))
-            k += 1
-        return out
-    for i, o in enumerate(p["ops"]):
-        f = flag(o["v"])
-        ops.append(qp.CNOT([0, 1]) if o["k"] == "CNOT" else qp.IsingXX(f[0], [0, 1]) if o["k"] == "IsingXX" else getattr(qp, o["k"])(*f, wires=i % 2))
-    for m in p["meas"]:
-        f = flag(m["v"])
-        meas.append(qp.probs(wires=[0]) if m["k"] == "probs" else qp.expval(qp.Z(0)) if m["k"] == "Z" else
-                    qp.expval(qp.s_prod(f[0], qp.Z(1))) if m["k"] == "SProd" else qp.expval(qp.sum(qp.s_prod(f[0], qp.Z(0)), qp.s_prod(f[1], qp.X(1)))))
+        k += 1
+        return pnp.tensor(val(v), requires_grad=(k - 1 in trs))
+    ops = [build_op(o, i, flag) for i, o in enumerate(p["ops"])]
+    meas = [build_meas(m, flag) for m in p["meas"]]
     flagged = type(t)(ops, meas, shots=t.shots, trainable_params=sorted(trs))
     if set(qp.math.get_trainable_indices([d for o in ops for d in o.data] + [d for m in meas if m.obs is not None for d in m.obs.data])) != trs & set(range(k)):
         raise lib.MachineryError("requires_grad flags do not reproduce the trainable indices")
@@ -162,7 +229,7 @@ def replay_history(h, cls, stats, compare=True):
         src = real[t - 1] if t else None
         try:
             if a == "construct":
-                new = cls([build_op(o["k"], o["v"], i) for i, o in enumerate(e["ops"])], [build_meas(m["k"], m["v"]) for m in e["meas"]],
+                new = cls([build_op(o, i) for i, o in enumerate(e["ops"])], [build_meas(m) for m in e["meas"]],
                           shots=e["shots"] or None, trainable_params=e["tr"])
             elif a == "copy":
                 new = src.copy()
@@ -204,6 +271,8 @@ def replay_history(h, cls, stats, compare=True):
             expd.append(e)
         stats["acts"][a] = stats["acts"].get(a, 0) + 1
         projs = [project(x) for x in real]
+        if t:
+            note_nested(stats, a, projs[t - 1], list(range(len(projs[t - 1]["pi"]))) if a.startswith("bindcur") else arg)
         steps.append({"a": a, "t": t, "new": len(real) if new is not None else t, "arg": arg, "vals": vals, "res": res, "eq": eq, "heap": projs})
         if not compare:
             if res != "ok" and a != "set_tr" or (a == "set_tr" and res == "ok" and any(i < 0 or i >= len(projs[t - 1]["all"]) for i in arg)):
@@ -255,28 +324,69 @@ def replay_history(h, cls, stats, compare=True):
 
 
 # ------------------------------------------------------------------ bases
-def _op(k, *v):
-    return '[k |-> "%s", v |-> <<%s>>]' % (k, ",".join(map(str, v)))
+def _op(k, *v, sub=()):
+    return '[k |-> "%s", v |-> <<%s>>, sub |-> <<%s>>]' % (k, ",".join(map(str, v)), ",".join(sub))
 
 
 def _tape(ops, meas, tr, shots=0):
     return "[ops |-> <<%s>>, meas |-> <<%s>>, tr |-> %s, shots |-> %d]" % (",".join(ops), ",".join(meas), tr, shots)
 
 
+def _sprod(c, base="Z"):
+    return _op("SProd", c, sub=[_op(base)])
+
+
+def _sum2(a, b):
+    return _op("Sum", sub=[_sprod(a, "Z"), _sprod(b, "X")])
+
+
 BASES = [
-    _tape([_op("RX", 1), _op("CNOT"), _op("Rot", 2, 3, 4)], [_op("SProd", 5)], "0..4"),
-    _tape([_op("U2", 1, 2), _op("RY", 3)], [_op("Z"), _op("Sum2", 4, 5)], "{1,3}", 100),
+    _tape([_op("RX", 1), _op("CNOT"), _op("Rot", 2, 3, 4)], [_sprod(5)], "0..4"),
+    _tape([_op("U2", 1, 2), _op("RY", 3)], [_op("Z"), _sum2(4, 5)], "{1,3}", 100),
     _tape([_op("CNOT")], [_op("probs")], "{}"),
     _tape([_op("U3", 1, 2, 3), _op("IsingXX", 4)], [_op("Z")], "{0,3}"),
-    _tape([_op("RZ", 1)], [_op("SProd", 2)], "{1}", 10),
+    _tape([_op("RZ", 1)], [_sprod(2)], "{1}", 10),
+    # operands that carry several parameters and are followed by further parameters: a product of parametrised gates among the
+    # operations, a linear combination whose first term is itself a linear combination
+    _tape([_op("Prod", sub=[_op("Rot", 1, 2, 3), _op("RY", 4)]), _op("RX", 5)],
+          [_op("Ham", 6, 9, sub=[_op("Ham", 7, 8, sub=[_op("X"), _op("Y")]), _op("Z")])], "{1,4,6,8}"),
+    # a linear combination with a two-parameter term (sum of scaled observables), a parameter-free term and a one-parameter term,
+    # behind an adjoint operation
+    _tape([_op("Adjoint", sub=[_op("Rot", 1, 2, 3)])],
+          [_op("Ham", 4, 7, 8, sub=[_sum2(5, 6), _op("Z"), _sprod(9, "Y")]), _op("Z")], "{0,4,6,8}", 50),
     _tape([_op("Rot", 1, 2, 3), _op("U2", 4, 5)], [_op("probs")], "{0,2,4}"),
+    # small nested base for the deeper exhaustive run
+    _tape([_op("Prod", sub=[_op("U2", 1, 2), _op("RZ", 3)])], [_op("Ham", 4, 7, sub=[_op("Ham", 5, 6, sub=[_op("X"), _op("Y")]), _op("Z")])], "{1,5}"),
 ]
+
+
+def _n(k, *v, sub=()):
+    return {"k": k, "v": list(v), "sub": list(sub)}
+
+
+def _ns(c, base="Z"):
+    return _n("SProd", c, sub=[_n(base)])
+
+
+def _ns2(a, b):
+    return _n("Sum", sub=[_ns(a, "Z"), _ns(b, "X")])
+
+
 WALK_BASES = [
-    {"ops": [{"k": "RX", "v": [1]}, {"k": "CNOT", "v": []}, {"k": "Rot", "v": [2, 3, 4]}], "meas": [{"k": "SProd", "v": [5]}], "tr": [0, 1, 2, 3, 4], "shots": 0},
-    {"ops": [{"k": "U2", "v": [1, 2]}, {"k": "RY", "v": [3]}], "meas": [{"k": "Z", "v": []}, {"k": "Sum2", "v": [4, 5]}], "tr": [1, 3], "shots": 100},
-    {"ops": [{"k": "U3", "v": [1, 2, 3]}, {"k": "IsingXX", "v": [4]}, {"k": "U2", "v": [5, 6]}], "meas": [{"k": "Z", "v": []}], "tr": [0, 3, 5], "shots": 0},
-    {"ops": [{"k": "RZ", "v": [1]}, {"k": "Rot", "v": [2, 3, 4]}], "meas": [{"k": "SProd", "v": [5]}, {"k": "probs", "v": []}], "tr": [4], "shots": 10},
-    {"ops": [{"k": "IsingXX", "v": [1]}, {"k": "RX", "v": [2]}, {"k": "U3", "v": [3, 4, 5]}], "meas": [{"k": "Sum2", "v": [6, 7]}], "tr": [0, 2, 6], "shots": 0},
+    {"ops": [_n("RX", 1), _n("CNOT"), _n("Rot", 2, 3, 4)], "meas": [_ns(5)], "tr": [0, 1, 2, 3, 4], "shots": 0},
+    {"ops": [_n("U2", 1, 2), _n("RY", 3)], "meas": [_n("Z"), _ns2(4, 5)], "tr": [1, 3], "shots": 100},
+    {"ops": [_n("U3", 1, 2, 3), _n("IsingXX", 4), _n("U2", 5, 6)], "meas": [_n("Z")], "tr": [0, 3, 5], "shots": 0},
+    {"ops": [_n("RZ", 1), _n("Rot", 2, 3, 4)], "meas": [_ns(5), _n("probs")], "tr": [4], "shots": 10},
+    {"ops": [_n("IsingXX", 1), _n("RX", 2), _n("U3", 3, 4, 5)], "meas": [_ns2(6, 7)], "tr": [0, 2, 6], "shots": 0},
+    # nested operators: operands with several parameters followed by further parameters
+    {"ops": [_n("RX", 1), _n("Prod", sub=[_n("Rot", 2, 3, 4), _n("RY", 5)])],
+     "meas": [_n("Ham", 6, 9, sub=[_n("Ham", 7, 8, sub=[_n("X"), _n("Y")]), _n("Z")])], "tr": [1, 4, 6, 8], "shots": 0},
+    {"ops": [_n("Adjoint", sub=[_n("Rot", 1, 2, 3)]), _n("CNOT")],
+     "meas": [_n("Ham", 4, 7, 8, sub=[_ns2(5, 6), _n("Z"), _ns(9, "Y")]), _n("Z")], "tr": [0, 4, 6, 8], "shots": 50},
+    {"ops": [_n("RY", 1)], "meas": [_ns(2, "Y"), _n("Ham", 3, 7, sub=[_n("Prod", sub=[_ns(4, "X"), _ns(5, "Z"), _n("Y")]), _ns(8, "X")])],
+     "tr": [1, 3, 4], "shots": 0},
+    {"ops": [_n("Prod", sub=[_n("RX", 1), _n("U3", 2, 3, 4), _n("RZ", 5)]), _n("RY", 6)],
+     "meas": [_n("SProd", 7, sub=[_n("Ham", 8, 9, sub=[_n("X"), _n("Z")])])], "tr": [2, 6, 8], "shots": 0},
 ]
 for _b in WALK_BASES:
     _b.update(pi=[], all=[], tp=[], otp=[])
@@ -295,7 +405,7 @@ def corrupt(tr, rng):
             j = next(i for i in range(len(p["all"])) if i not in s["arg"])      # a slot that was NOT addressed
             oi, pi_ = p["pi"][j]
             tgt = p["ops"][oi] if oi < len(p["ops"]) else p["meas"][oi - len(p["ops"])]
-            tgt["v"][pi_] += 1
+            node_put(tgt, paths(tgt)[pi_], lambda x: x + 1)
             p["all"][j] += 1
             if j in p["tr"]:
                 p["tp"][p["tr"].index(j)] += 1
@@ -342,7 +452,7 @@ def random_walk(rng, depth, cls, stats):
     the recorded steps are judged by Trace_TapeParams.tla."""
     base = norm_exp(rng.choice(WALK_BASES))
     h = [{"a": "construct", "t": 0, "arg": [], "vals": [], "res": "ok", "exp": base}]
-    real = [cls([build_op(o["k"], o["v"], i) for i, o in enumerate(base["ops"])], [build_meas(m["k"], m["v"]) for m in base["meas"]],
+    real = [cls([build_op(o, i) for i, o in enumerate(base["ops"])], [build_meas(m) for m in base["meas"]],
                 shots=base["shots"] or None, trainable_params=base["tr"])]
     steps = [{"a": "construct", "t": 0, "new": 1, "arg": [], "vals": [], "res": "ok", "eq": True, "heap": [project(real[0])]}]
     for si in range(1, depth + 1):
@@ -412,6 +522,7 @@ def random_walk(rng, depth, cls, stats):
         h.append({"a": a, "t": t, "arg": arg, "vals": vals, "res": res})
         steps.append({"a": a, "t": t, "new": len(real) if new is not None else t, "arg": arg, "vals": vals, "res": res, "eq": eq,
                       "heap": [project(x) for x in real]})
+        note_nested(stats, a, steps[-1]["heap"][t - 1], arg)
         if res != "ok" and a != "set_tr" or (a == "set_tr" and res == "ok" and any(i < 0 or i >= n for i in arg)):
             break                      # the trace spec will reject this step; later steps would be noise
     return h, steps
@@ -421,13 +532,13 @@ def run(tier, seed):
     import time
     T0, phases = time.time(), {}
     rng = random.Random(seed)
-    stats = {"acts": {}, "expand": 0, "expand_nontrivial": 0, "expand_explicit_indices_recomputed": 0, "drift": 0}
+    stats = new_stats()
     # ---------------- (M) + generation: every history up to the bound, invariants checked on every reachable heap
     runs, hists = [], []
-    plan = [(2, BASES[:5])] if tier == "quick" else [(2, BASES), (3, BASES[1:2] + BASES[4:5])]
+    plan = [(2, BASES[:7])] if tier == "quick" else [(2, BASES[:8]), (3, BASES[1:2] + BASES[4:5] + BASES[8:9])]
     for gi, (depth, bases) in enumerate(plan):
         g = lib.run_tlc_mc("TapeParamsGen", {"Bases": "{" + ",".join(bases) + "}"}, lib.workdir("C40", f"gen{gi}"),
-                           constants={"MaxSteps": depth, "MaxTapes": 9}, invariants=INVS, properties=["Frame"], constraints=["Emit"], timeout=3000)
+                           constants={"MaxSteps": depth, "MaxTapes": 9}, invariants=INVS + ["DeepBases"], properties=["Frame"], constraints=["Emit"], timeout=3000)
         if g.invariant_violated:
             raise lib.MachineryError(f"the TapeParams model violates its own invariant {g.invariant_violated}:\n" + g.out[-2000:])
         lib.require_ok(g, "TapeParamsGen")
@@ -461,7 +572,7 @@ def run(tier, seed):
     hneg = json.loads(json.dumps(next(h for _, h in hists if any(x["a"] == "bind" for x in h))))
     kb = next(i for i, x in enumerate(hneg) if x["a"] == "bind")
     hneg[kb]["exp"]["all"][seq(hneg[kb]["arg"])[0]] += 1
-    _, badneg = replay_history(hneg, qp.tape.QuantumScript, {"acts": {}, "expand": 0, "expand_nontrivial": 0, "expand_explicit_indices_recomputed": 0, "drift": 0})
+    _, badneg = replay_history(hneg, qp.tape.QuantumScript, new_stats())
     if not badneg:
         raise lib.MachineryError("negative control (perturbed expected parameter) accepted by the replay comparator")
     neg_ok = 1
@@ -541,6 +652,8 @@ def run(tier, seed):
     need = {"copy", "copy_deep", "copy_tr", "copy_shots", "copy_ops", "bind", "bindcur_all", "bindcur_tr", "set_tr", "expand"}
     if need - set(stats["acts"]) or stats["expand_nontrivial"] < 10:
         raise lib.MachineryError(f"vacuous: actions never replayed: {need - set(stats['acts'])}, non-trivial expansions {stats['expand_nontrivial']}")
+    if min(stats["binds_into_deep_layout"], stats["copies_of_nested"], stats["expands_with_nested"]) < 50:
+        raise lib.MachineryError(f"vacuous: nested operators hardly exercised: {({k: stats[k] for k in stats if 'nested' in k or 'deep' in k})}")
     cov = {"states": sum(x.distinct for x in runs), "transitions": sum(x.generated for x in runs),
            "traces_validated_against_impl": len(idx), "evaluations": sum(stats["acts"].values()), "distinct_nontrivial": len(nontriv),
            "rule": "TLC enumerates every history of calls up to the bound from the base tapes; non-trivial = distinct (base circuit, call sequence "
@@ -548,6 +661,8 @@ def run(tier, seed):
                    "plus distinct random deeper histories accepted by the trace spec",
            "samples": samples, "exhaustive": True, "histories_replayed": n_replayed, "random_histories": n_walk, "random_history_depth": d_walk,
            "calls_by_action": stats["acts"], "expansions": stats["expand"], "expansions_with_composite_gates": stats["expand_nontrivial"],
+           "binds_on_tapes_with_nested_operators": stats["binds_on_nested"], "binds_into_multi_parameter_operand_layouts": stats["binds_into_deep_layout"],
+           "copies_of_tapes_with_nested_operators": stats["copies_of_nested"], "expansions_of_tapes_with_nested_operators": stats["expands_with_nested"],
            "expansions_where_decompose_recomputed_explicit_indices": stats["expand_explicit_indices_recomputed"],
            "cumulative_wall_s": phases, "model_drift": stats["drift"] + tdrift, "negative_controls_rejected": neg_ok, "trace_negative_control_kinds": kinds,
            "model": {"module": "TapeParams", "invariants": INVS + ["Frame (action property)"],
@@ -563,7 +678,7 @@ def replay(path, tier="quick", seed=0):
     """./check C40 --replay FILE: perform the stored calls on real tapes again and let Trace_TapeParams.tla judge the recorded steps."""
     d = json.loads(open(path).read())
     hist, base = d["replay"]["history"], norm_exp(d["replay"]["base"])
-    stats = {"acts": {}, "expand": 0, "expand_nontrivial": 0, "expand_explicit_indices_recomputed": 0, "drift": 0}
+    stats = new_stats()
     h = [dict(x, exp=base, res="ok") for x in hist]          # expectations are not stored: only the outcome / trace verdict matters here
     steps, _ = replay_history(h, qp.tape.QuantumScript, stats, compare=False)
     wd = lib.workdir("C40", "replay")
